@@ -1,4 +1,5 @@
 import PraatModel.Props.C07Points
+import PraatModel.Props.C12Validate
 
 /-!
 # C07 / C08, textgrid level — the full functional specification of `Textgrid.eraseRegion` and `Textgrid.insertSpace`
@@ -14,8 +15,8 @@ this file leave the receiver unchanged, also when they raise).
 | `eraseRegion` in one equation: the per-tier results in order, the start widened over them, the end computed separately | `tg_erase_eq` |
 | `insertSpace` in one equation | `tg_space_eq` |
 | `eraseRegion` refuses exactly `b ≤ a`, with ArgumentError — whatever the position of the region relative to the textgrid's or any tier's span, whether or not the tiers share the textgrid's span, with or without tiers | `tg_erase_rejects`, `tg_erase_ok`, `tg_erase_err_iff`, `tg_erase_no_tiers` |
-| the result of `eraseRegion` on a valid textgrid (when shrinking: region inside the span): names, tier-wise, every tier has the new span, validates | `tg_erase_spec` |
-| where the separately computed end differs from the tiers' ends: shrinking a region that sticks out of the span (not refused; the result does not validate; a tier may end before it starts) | `tg_erase_outside_counterexample`, `ierase_outside_counterexample` |
+| the result of `eraseRegion` on a valid textgrid, ANY region `a < b` (since fix A28): names, tier-wise, every tier has the new span (end earlier by the part of the region inside the span), validates | `tg_erase_spec` |
+| regression of A28: shrinking a region that sticks out of the span (before the fix the separately computed end differed from the tiers' ends, the result did not validate, a tier could end before it started) | `tg_erase_outside_regression`, `ierase_outside_regression` |
 | empty tiers are treated like the others | `ierase_empty`, `perase_empty`, `tg_erase_empty_tiers` |
 | `insertSpace` (`d > 0`, ANY `s`) refuses exactly in mode `error` when some interval tier has an interval straddling `s`, with ArgumentError | `tg_space_err_iff`, `tg_space_error_example` |
 | the result of `insertSpace` on a valid textgrid, any `s` (before the start, inside, beyond the end) | `tg_space_spec` |
@@ -129,11 +130,12 @@ theorem spanHi_const (o : Option Int) (ts : List (AnyTier Int)) (h : ∀ t ∈ t
 
 /-- **eraseRegion in one equation** (pairwise different names — the invariant of the tier dictionary —, nothing else
 assumed: tiers well-formed or not, sharing the textgrid's span or not): the per-tier results in order; the start is the old
-start widened over the new tiers; the END IS COMPUTED SEPARATELY from the old end, `a + (hi - b)` when shrinking, and
-overwrites whatever the loop accumulated; the call fails exactly when a tier-level call fails, with that error -/
+start widened over the new tiers; the END IS COMPUTED SEPARATELY from the old end (`Tg.eraseHi`: the old end minus the part
+of the region inside the textgrid's span when shrinking, `C12.eraseHi_int`) and overwrites whatever the loop accumulated;
+the call fails exactly when a tier-level call fails, with that error -/
 theorem tg_erase_eq (g : Tg Int) (hnd : g.names.Nodup) (a b : Int) (hab : a < b) (sh : Bool) :
     g.eraseRegion a b sh =
-      Except.map (fun ts => ⟨ts, spanLo g.lo ts, if sh then g.hi.map (shiftBack a b) else g.hi⟩)
+      Except.map (fun ts => ⟨ts, spanLo g.lo ts, Tg.eraseHi g.lo g.hi a b sh⟩)
         (g.tiers.mapM (·.eraseRegion a b .truncate sh)) := by
   unfold Tg.eraseRegion
   rw [if_neg (by omega)]
@@ -151,8 +153,7 @@ theorem tg_erase_rejects (g : Tg Int) (a b : Int) (sh : Bool) (h : b ≤ a) :
   unfold Tg.eraseRegion
   rw [if_pos h]
 
-/-- interval tiers: `truncate` / `categorical` never refuse a proper region, wherever it lies relative to the span
-(`erase_shrink` of `C07` has the in-span hypothesis because of the span clause, not because of success) -/
+/-- interval tiers: `truncate` / `categorical` never refuse a proper region, wherever it lies relative to the span -/
 theorem erase_ok_any (t : ITier Int) (hwf : t.WF) (a b : Int) (hab : a < b) (mode : EraseMode) (hm : mode ≠ .error)
     (sh : Bool) : ∃ t', t.eraseRegion a b mode sh = .ok t' := by
   cases sh with
@@ -160,17 +161,8 @@ theorem erase_ok_any (t : ITier Int) (hwf : t.WF) (a b : Int) (hab : a < b) (mod
     obtain ⟨t', h, _⟩ := erase_noshrink t hwf a b hab mode hm
     exact ⟨t', h⟩
   | true =>
-    obtain ⟨u, h1, h2⟩ := eraseCore_spec t hwf a b hab mode hm
-    have hclear := isErased_clear t u hwf a b hab mode h2
-    have hw := map_shOne_wf a b hab u.es h2.wf.pos h2.wf.disj h2.wf.stripped hclear
-    have hr := rejoin_wf a _ hw.1 hw.2.1 hw.2.2
-    have key : t.eraseRegion a b mode true =
-        mkITier u.name (rejoin a (u.es.map (shOne a b))) (some u.lo) (some (shiftBack a b u.hi)) := by
-      rw [erase_unfold t hwf a b hab mode true, h1]
-      simp only [bind, Except.bind, if_true, shrinkStep, ITier.new, Option.getD_some, Option.getD_none]
-      rw [shrinkIvs_eq_map a b u.es hclear]
-    rw [key, mkITier_of_wf _ _ _ _ hr.1 hr.2.1 hr.2.2.1]
-    exact ⟨_, rfl⟩
+    obtain ⟨t', h, _⟩ := erase_shrink_any t hwf a b hab mode hm
+    exact ⟨t', h⟩
 
 /-- a well-formed tier of either class never refuses a proper region -/
 theorem anyerase_ok {t : AnyTier Int} (hwf : AnyWF t) (a b : Int) (hab : a < b) (sh : Bool) :
@@ -189,7 +181,7 @@ spans (equal to the textgrid's or not), none on the number of tiers -/
 theorem tg_erase_ok (g : Tg Int) (hnd : g.names.Nodup) (hwf : ∀ t ∈ g.tiers, AnyWF t) (a b : Int) (hab : a < b)
     (sh : Bool) :
     ∃ ts, g.tiers.mapM (·.eraseRegion a b .truncate sh) = .ok ts ∧
-      g.eraseRegion a b sh = .ok ⟨ts, spanLo g.lo ts, if sh then g.hi.map (shiftBack a b) else g.hi⟩ := by
+      g.eraseRegion a b sh = .ok ⟨ts, spanLo g.lo ts, Tg.eraseHi g.lo g.hi a b sh⟩ := by
   obtain ⟨ts, hts⟩ := C12.mapM_ok_of_forall (·.eraseRegion a b .truncate sh) g.tiers
     (fun t ht => anyerase_ok (hwf t ht) a b hab sh)
   refine ⟨ts, hts, ?_⟩
@@ -210,83 +202,93 @@ theorem tg_erase_err_iff (g : Tg Int) (hnd : g.names.Nodup) (hwf : ∀ t ∈ g.t
   · rintro ⟨h, rfl⟩
     exact tg_erase_rejects g a b sh h
 
-/-- **a textgrid without tiers**: the start is kept and the end is moved like a tier's end would be (`none` stays `none`
-in the model; on the class a span-less `Textgrid()` raises TypeError when shrinking — see the report) -/
+/-- **a textgrid without tiers**: the start is kept and the end is moved like a tier's end would be (`none` stays `none`,
+in the model and — since fix A28 — on the class) -/
 theorem tg_erase_no_tiers (g : Tg Int) (hg : g.tiers = []) (a b : Int) (hab : a < b) (sh : Bool) :
-    g.eraseRegion a b sh = .ok ⟨[], g.lo, if sh then g.hi.map (shiftBack a b) else g.hi⟩ := by
+    g.eraseRegion a b sh = .ok ⟨[], g.lo, Tg.eraseHi g.lo g.hi a b sh⟩ := by
   rw [tg_erase_eq g (by simp [Tg.names, hg]) a b hab sh, hg]
   rfl
 
-/-- **the result on a valid textgrid** of well-formed tiers, `a < b`, and — when shrinking — the region inside the
-textgrid's span: the call succeeds; same names in the same order; the tiers are the tier-level results in order; the start
-is kept; the end is kept, or moved back by exactly `b - a`; the separately computed end EQUALS every tier's new end (and
-the start every tier's start), so that the result validates.  Without shrinking no hypothesis on the position of the
-region is needed. -/
+/-- **the result on a valid textgrid** of well-formed tiers, ANY region `a < b` (since fix A28 no hypothesis on its
+position): the call succeeds; same names in the same order; the tiers are the tier-level results in order; the start is
+kept; the end is kept, or — shrinking — moved back by exactly the length of the part of the region inside the span
+(`b - a` for a region inside the span, `C12.clipLen_in`; 0 for a region outside it); the separately computed end EQUALS
+every tier's new end (and the start every tier's start), so that the result validates -/
 theorem tg_erase_spec (g : Tg Int) (hwf : ∀ t ∈ g.tiers, AnyWF t) (hv : g.validate = true) (a b : Int) (hab : a < b)
-    (sh : Bool) (hin : sh = true → (∀ lo, g.lo = some lo → lo ≤ a) ∧ (∀ hi, g.hi = some hi → b ≤ hi)) :
+    (sh : Bool) :
     ∃ g', g.eraseRegion a b sh = .ok g' ∧ g'.names = g.names ∧
       g.tiers.mapM (·.eraseRegion a b .truncate sh) = .ok g'.tiers ∧
-      g'.validate = true ∧ g'.lo = g.lo ∧ g'.hi = (if sh then g.hi.map (fun x => x - (b - a)) else g.hi) ∧
+      g'.validate = true ∧ g'.lo = g.lo ∧
+      g'.hi = (if sh then g.hi.map (fun x => x - C12.clipLen (g.lo.getD a) x a b) else g.hi) ∧
       ∀ t' ∈ g'.tiers, g'.lo = some t'.lo ∧ g'.hi = some t'.hi ∧ AnyWF t' := by
-  obtain ⟨g', e, r1, r2, r3, r4⟩ := C12.eraseRegion_validate_ok g hwf hv a b hab sh hin
+  obtain ⟨g', e, r1, r2, r3, r4⟩ := C12.eraseRegion_validate_ok g hwf hv a b hab sh
   exact ⟨g', e, ((C12.tgop_names g g').2.1 a b sh e).1, (C12.tgop_tiers g g').2.1 a b sh e, r1, r2, r3, r4⟩
 
 /-! ### empty tiers -/
 
-/-- an interval tier without entries: every mode succeeds (nothing can collide), the tier stays empty, and when
-shrinking its end is moved to `a + (hi - b)` — for any region -/
+/-- an interval tier without entries, ANY region: every mode succeeds (nothing can collide), the tier stays empty, and
+when shrinking its end is moved back by the length of the part of the region inside its span -/
 theorem ierase_empty (t : ITier Int) (hwf : t.WF) (he : t.es = []) (a b : Int) (hab : a < b) (mode : EraseMode)
     (sh : Bool) :
-    t.eraseRegion a b mode sh = .ok { t with hi := if sh then shiftBack a b t.hi else t.hi } := by
-  rw [erase_unfold t hwf a b hab mode sh]
+    t.eraseRegion a b mode sh = .ok { t with hi := if sh then t.hi - C12.clipLen t.lo t.hi a b else t.hi } := by
+  rw [erase_unfold_clip t hwf a b hab mode sh]
   obtain ⟨n, es, lo, hi⟩ := t
   simp only at he
   subst he
   cases sh with
   | false => rfl
   | true =>
-    simp only [List.filter_nil, eraseCore, List.head?_nil, bind, Except.bind, pure, Except.pure, if_true, shrinkStep,
-      ITier.new, Option.getD_some, Option.getD_none, shrinkIvs, List.filterMap_nil, rejoin]
-    rw [mkITier_of_wf n [] lo (shiftBack a b hi) (by intro _ h; cases h) List.Pairwise.nil (by intro _ h; cases h)]
-    rfl
+    obtain ⟨e1, e2⟩ := clip_true lo hi a b
+    simp only [e1, e2, true_and]
+    split
+    · rename_i hc
+      have : C12.clipLen lo hi a b = 0 := by simp only [C12.clipLen]; omega
+      simp [this]
+    · rename_i hc
+      have : hi - C12.clipLen lo hi a b = shiftBack (max a lo) (min b hi) hi := by
+        simp only [C12.clipLen, shiftBack]; omega
+      simp only [List.filter_nil, eraseCore, List.head?_nil, bind, Except.bind, pure, Except.pure, if_true, shrinkStep,
+        ITier.new, Option.getD_some, Option.getD_none, shrinkIvs, List.filterMap_nil, rejoin, this]
+      rw [mkITier_of_wf n [] lo _ (by intro _ h; cases h) List.Pairwise.nil (by intro _ h; cases h)]
+      rfl
 
-/-- a point tier without entries, region inside the span -/
-theorem perase_empty (t : PTier Int) (hwf : t.WF) (he : t.ps = []) (a b : Int) (hab : a < b) (sh : Bool)
-    (hin : sh = true → t.lo ≤ a ∧ b ≤ t.hi) :
-    t.eraseRegion a b sh = .ok { t with hi := if sh then t.hi - (b - a) else t.hi } := by
+/-- a point tier without entries, ANY region -/
+theorem perase_empty (t : PTier Int) (hwf : t.WF) (he : t.ps = []) (a b : Int) (hab : a < b) (sh : Bool) :
+    t.eraseRegion a b sh = .ok { t with hi := if sh then t.hi - C12.clipLen t.lo t.hi a b else t.hi } := by
+  obtain ⟨n, ps, lo, hi⟩ := t
+  simp only at he
+  subst he
   cases sh with
   | false =>
-    rw [perase_noshrink_eq t hwf a b hab, he]
-    obtain ⟨n, ps, lo, hi⟩ := t
-    simp only at he
-    subst he
+    rw [perase_noshrink_eq _ hwf a b hab]
     rfl
   | true =>
-    obtain ⟨h1, h2⟩ := hin rfl
-    rw [perase_shrink_eq t hwf a b hab h1 h2, he]
-    obtain ⟨n, ps, lo, hi⟩ := t
-    simp only at he
-    subst he
-    rfl
+    rw [perase_shrink_any _ hwf a b hab]
+    simp only
+    split
+    · rename_i hc
+      have : C12.clipLen lo hi a b = 0 := by simp only [C12.clipLen]; omega
+      simp [this]
+    · rename_i hc
+      have : C12.clipLen lo hi a b = min b hi - max a lo := by simp only [C12.clipLen]; omega
+      simp [this, pshrink]
 
-/-- what `eraseRegion` makes of a tier without entries (either class), region inside its span -/
+/-- what `eraseRegion` makes of a tier without entries (either class) -/
 def emptyErased (a b : Int) (sh : Bool) : AnyTier Int → AnyTier Int
-  | .I t => .I { t with hi := if sh then t.hi - (b - a) else t.hi }
-  | .P t => .P { t with hi := if sh then t.hi - (b - a) else t.hi }
+  | .I t => .I { t with hi := if sh then t.hi - C12.clipLen t.lo t.hi a b else t.hi }
+  | .P t => .P { t with hi := if sh then t.hi - C12.clipLen t.lo t.hi a b else t.hi }
 
-/-- **empty tiers are handled like the others**: in the result of `Textgrid.eraseRegion` on a valid textgrid the tier at
-the position of an entry-less tier is that tier with the new span — it is neither skipped nor left with its old span -/
-theorem tg_erase_empty_tiers (g : Tg Int) (hwf : ∀ t ∈ g.tiers, AnyWF t) (hv : g.validate = true) (a b : Int)
-    (hab : a < b) (sh : Bool) (hin : sh = true → (∀ lo, g.lo = some lo → lo ≤ a) ∧ (∀ hi, g.hi = some hi → b ≤ hi))
+/-- **empty tiers are handled like the others**: in the result of `Textgrid.eraseRegion` (well-formed tiers, ANY region)
+the tier at the position of an entry-less tier is that tier with its new span — it is neither skipped nor left with its
+old span -/
+theorem tg_erase_empty_tiers (g : Tg Int) (hwf : ∀ t ∈ g.tiers, AnyWF t) (a b : Int)
+    (hab : a < b) (sh : Bool)
     (g' : Tg Int) (h : g.eraseRegion a b sh = .ok g') (i : Nat) (t : AnyTier Int) (hi : g.tiers[i]? = some t)
     (he : t.isEmpty = true) : g'.tiers[i]? = some (emptyErased a b sh t) := by
   have hm := (C12.tgop_tiers g g').2.1 a b sh h
   obtain ⟨_, h2⟩ := C12.mapM_getElem _ _ _ hm
   obtain ⟨t', e1, e2⟩ := h2 i t hi
   have htm : t ∈ g.tiers := List.mem_of_getElem? hi
-  obtain ⟨_, hsp⟩ := (C12.validate_iff g).1 hv
-  obtain ⟨s1, s2, _⟩ := hsp t htm
-  have hin' : sh = true → t.lo ≤ a ∧ b ≤ t.hi := fun hs => ⟨(hin hs).1 _ s1, (hin hs).2 _ s2⟩
   rw [e1]
   congr 1
   cases t with
@@ -295,15 +297,19 @@ theorem tg_erase_empty_tiers (g : Tg Int) (hwf : ∀ t ∈ g.tiers, AnyWF t) (hv
     have := ierase_empty t (hwf _ htm) he' a b hab .truncate sh
     simp only [AnyTier.eraseRegion, this] at e2
     cases e2
-    simp only [emptyErased, shiftBack_eq]
+    rfl
   | P t =>
     have he' : t.ps = [] := by simpa [AnyTier.isEmpty] using he
-    have := perase_empty t (hwf _ htm) he' a b hab sh hin'
+    have := perase_empty t (hwf _ htm) he' a b hab sh
     simp only [AnyTier.eraseRegion, this] at e2
     cases e2
     rfl
 
-/-! ### where the separately computed end differs from the tiers' ends -/
+/-! ### regression of A28: a region sticking out of the span, shrinking
+
+Before the fix the textgrid computed its new end from the whole region, `6 + (10 - 15) = 1`, the tier "marks" ended at its
+last remaining point 3 and the entry-less tier at 1 (`validate()` False); an entry-less interval tier of span `[0, 10]`
+came back from `eraseRegion(5, 30, …, True)` ending at `-15`, before its start. -/
 
 /-- a valid textgrid of span `[0, 10]`: a point tier and a point tier without entries -/
 def exNone : PTier Int := ⟨"none", [], 0, 10⟩
@@ -327,54 +333,42 @@ theorem exG2_valid : exG2.validate = true := by
   refine ⟨?_, ?_, exG2_wf t ht⟩ <;>
     (simp only [exG2, List.mem_cons, List.not_mem_nil, or_false] at ht; rcases ht with rfl | rfl <;> rfl)
 
-/-- **tg_erase_outside_counterexample**: shrinking the region `[6, 15]`, which sticks out of the span `[0, 10]`, out of a valid
-textgrid is NOT refused; the textgrid's end becomes `6 + (10 - 15) = 1`, the tier "marks" ends at its last point 3, the
-entry-less tier ends at 1 — the result does not validate.  So the hypothesis "region inside the span" of `tg_erase_spec`
-is needed for the span clause (the property speaks of in-span regions only; the class returns the same textgrid) -/
-theorem tg_erase_outside_counterexample :
+/-- **tg_erase_outside_regression**: shrinking the region `[6, 15]`, which sticks out of the span `[0, 10]`, out of a
+valid textgrid cuts out `[6, 10]`: the textgrid and both tiers end at `10 - 4 = 6`, and the result validates -/
+theorem tg_erase_outside_regression :
     (∀ t ∈ exG2.tiers, AnyWF t) ∧ exG2.validate = true ∧
     ∃ g', exG2.eraseRegion 6 15 true = .ok g' ∧
-      g'.tiers = [.P ⟨"marks", [⟨3, "p"⟩], 0, 3⟩, .P ⟨"none", [], 0, 1⟩] ∧
-      g'.lo = some 0 ∧ g'.hi = some 1 ∧ g'.validate = false := by
+      g'.tiers = [.P ⟨"marks", [⟨3, "p"⟩], 0, 6⟩, .P ⟨"none", [], 0, 6⟩] ∧
+      g'.lo = some 0 ∧ g'.hi = some 6 ∧ g'.validate = true := by
   refine ⟨exG2_wf, exG2_valid, ?_⟩
-  have h1 : (AnyTier.P C12.exMarks).eraseRegion 6 15 .truncate true = .ok (.P ⟨"marks", [⟨3, "p"⟩], 0, 3⟩) := by
+  have h1 : (AnyTier.P C12.exMarks).eraseRegion 6 15 .truncate true = .ok (.P ⟨"marks", [⟨3, "p"⟩], 0, 6⟩) := by
     simp only [AnyTier.eraseRegion]
-    rw [perase_shrink_any C12.exMarks C12.exMarks_wf 6 15 (by decide)]
+    rw [perase_shrink_any C12.exMarks C12.exMarks_wf 6 15 (by decide), if_neg (by decide)]
     rfl
-  have h2 : (AnyTier.P exNone).eraseRegion 6 15 .truncate true = .ok (.P ⟨"none", [], 0, 1⟩) := by
+  have h2 : (AnyTier.P exNone).eraseRegion 6 15 .truncate true = .ok (.P ⟨"none", [], 0, 6⟩) := by
     simp only [AnyTier.eraseRegion]
-    rw [perase_shrink_any exNone exNone_wf 6 15 (by decide)]
+    rw [perase_shrink_any exNone exNone_wf 6 15 (by decide), if_neg (by decide)]
     rfl
   have hm : exG2.tiers.mapM (·.eraseRegion 6 15 .truncate true) =
-      .ok [.P ⟨"marks", [⟨3, "p"⟩], 0, 3⟩, .P ⟨"none", [], 0, 1⟩] := by
+      .ok [.P ⟨"marks", [⟨3, "p"⟩], 0, 6⟩, .P ⟨"none", [], 0, 6⟩] := by
     simp only [exG2, List.mapM_cons, List.mapM_nil, h1, h2]
     rfl
-  have he := tg_erase_eq exG2 exG2_nodup 6 15 (by decide) true
-  rw [hm] at he
-  simp only [Except.map, if_true] at he
-  refine ⟨_, he, rfl, rfl, rfl, ?_⟩
-  generalize hg : (⟨[.P ⟨"marks", [⟨3, "p"⟩], 0, 3⟩, .P ⟨"none", [], 0, 1⟩], spanLo exG2.lo _,
-    exG2.hi.map (shiftBack 6 15)⟩ : Tg Int) = g'
-  cases hv : g'.validate with
-  | false => rfl
-  | true =>
-    have := ((C12.validate_iff g').1 hv).2 (.P ⟨"marks", [⟨3, "p"⟩], 0, 3⟩) (by rw [← hg]; simp)
-    have := this.2.1
-    rw [← hg] at this
-    simp [exG2, AnyTier.hi, shiftBack] at this
+  obtain ⟨g', e, _, hts, v, l, h, _⟩ := tg_erase_spec exG2 exG2_wf exG2_valid 6 15 (by decide) true
+  rw [hm] at hts
+  exact ⟨g', e, (Except.ok.inj hts).symm, l, h, v⟩
 
-/-- the same with a region reaching far beyond the end: an entry-less interval tier of span `[0, 10]`, region `[5, 30]`,
-shrinking — the call is not refused and returns a tier whose end `5 + (10 - 30) = -15` lies BEFORE its start 0 (not
-well-formed: `lo ≤ hi` fails; `validate()` of the class still says True, there is no entry to check) -/
-theorem ierase_outside_counterexample :
+/-- **ierase_outside_regression**: an entry-less interval tier of span `[0, 10]`, region `[5, 30]`, shrinking: `[5, 10]`
+is cut out, the tier comes back well-formed with span `[0, 5]` (before the fix: `[0, -15]`) -/
+theorem ierase_outside_regression :
     (⟨"e", [], 0, 10⟩ : ITier Int).WF ∧
-    (⟨"e", [], 0, 10⟩ : ITier Int).eraseRegion 5 30 .truncate true = .ok ⟨"e", [], 0, -15⟩ ∧
-    ¬ (⟨"e", [], 0, -15⟩ : ITier Int).WF := by
+    (⟨"e", [], 0, 10⟩ : ITier Int).eraseRegion 5 30 .truncate true = .ok ⟨"e", [], 0, 5⟩ ∧
+    (⟨"e", [], 0, 5⟩ : ITier Int).WF := by
   have hwf : (⟨"e", [], 0, 10⟩ : ITier Int).WF := by
     refine ⟨?_, ?_, ?_, ?_, ?_, ?_⟩ <;> simp [Pos, Disj, Stripped]
-  refine ⟨hwf, ?_, fun h => absurd h.span (by decide)⟩
-  rw [ierase_empty _ hwf rfl 5 30 (by decide) .truncate true]
-  rfl
+  refine ⟨hwf, ?_, ?_⟩
+  · rw [ierase_empty _ hwf rfl 5 30 (by decide) .truncate true]
+    rfl
+  · refine ⟨?_, ?_, ?_, ?_, ?_, ?_⟩ <;> simp [Pos, Disj, Stripped]
 
 /-! ## `Textgrid.insertSpace` -/
 
@@ -578,12 +572,13 @@ def showTg (g : Tg Int) : Bool × Option Int × Option Int × List (Int × Int) 
 #guard (exG4.eraseRegion 0 10 true).toOption.map showTg == some (true, some 0, some 0, [(0, 0), (0, 0), (0, 0), (0, 0)])
 #guard (exG4.eraseRegion 6 15 false).toOption.map showTg ==
   some (true, some 0, some 10, [(0, 10), (0, 10), (0, 10), (0, 10)])
--- a region sticking out of the span, shrinking: not refused, the spans fall apart
-#guard (exG4.eraseRegion 6 15 true).toOption.map showTg == some (false, some 0, some 1, [(0, 6), (0, 3), (0, 1), (0, 1)])
-#guard (exG4.eraseRegion (-5) 2 true).toOption.map showTg ==
-  some (false, some (-5), some 3, [(-5, 3), (-4, 3), (0, 3), (0, 3)])
-#guard (exG4.eraseRegion 5 30 true).toOption.map showTg ==
-  some (false, some (-15), some (-15), [(0, 4), (-15, 3), (0, -15), (-15, 0)])
+-- a region sticking out of the span, shrinking (regression of A28): the part inside the span is cut out, everywhere alike
+#guard (exG4.eraseRegion 6 15 true).toOption.map showTg == some (true, some 0, some 6, [(0, 6), (0, 6), (0, 6), (0, 6)])
+#guard (exG4.eraseRegion (-5) 2 true).toOption.map showTg == some (true, some 0, some 8, [(0, 8), (0, 8), (0, 8), (0, 8)])
+#guard (exG4.eraseRegion 5 30 true).toOption.map showTg == some (true, some 0, some 5, [(0, 5), (0, 5), (0, 5), (0, 5)])
+#guard (exG4.eraseRegion 12 15 true).toOption.map showTg ==
+  some (true, some 0, some 10, [(0, 10), (0, 10), (0, 10), (0, 10)])
+#guard (exG4.eraseRegion (-5) 15 true).toOption.map showTg == some (true, some 0, some 0, [(0, 0), (0, 0), (0, 0), (0, 0)])
 #guard (match exG4.eraseRegion 6 2 true with | .error .ArgumentError => true | _ => false)
 -- insertSpace: before the start, inside, beyond the end
 #guard (exG4.insertSpace (-2) 5 .error).toOption.map showTg ==
